@@ -82,6 +82,12 @@ def resolve(owner, name):
 def install(owner, name, make_wrapper):
     """owner: module or class; make_wrapper(original) -> wrapper (use
     functools.wraps).  Idempotent."""
+    if isinstance(owner, type) and name not in vars(owner):
+        # inherited: install on the class that defines it
+        for base in owner.__mro__:
+            if name in vars(base):
+                owner = base
+                break
     key = (id(owner), name)
     if key in _INSTALLED:
         return 0
